@@ -100,6 +100,11 @@ func seqCases(prop, tier string, seed uint64) []Case {
 		}
 	}
 	var cases []Case
+	if prop == "C07" {
+		for k := 0; k < 2; k++ {
+			cases = append(cases, Case{ID: fmt.Sprintf("c07-two-trees-%d", k), Seed: uint64(k), Kind: "two-trees", P: json.RawMessage("{}")})
+		}
+	}
 	if prop == "C05" {
 		cases = append(cases, Case{ID: "c05-witness-rsa-recipient", Seed: 5, Kind: "witness:rsa-recipient", P: json.RawMessage("{}")})
 	}
@@ -153,7 +158,7 @@ func seqCases(prop, tier string, seed uint64) []Case {
 			}
 			p.Comps = append(p.Comps, "a", "ab", "a_", "a%")
 		} else if prop == "C12" {
-			p.Comps = []string{"a", "ab", "a_", "a%", "a b", "a.b", "ä", "aä", "%", "_", "[ab]", "a[", "a*", "a?", ".a", "A", "AB", "A_", "x.gz", "y.zst", "z.age", "w.pgp", "v.lz4", "u.bz2", "t.br"}
+			p.Comps = []string{"a", "ab", "a_", "a%", "a b", "a.b", "ä", "aä", "%", "_", "[ab]", "a[", "a*", "a?", ".a", "A", "AB", "A_", "x.gz", "y.zst", "z.age", "w.pgp", "v.lz4", "u.bz2", "t.br", "\U0001F600", "\U0001F3B5 b", "\uffff", "\uff5e"} // the last four: characters outside the BMP (lead byte 0xF0) and at its upper end - above any bound a byte-wise range scan might use
 		}
 		pb, _ := json.Marshal(p)
 		cases = append(cases, Case{ID: fmt.Sprintf("%s-h%04d", strings.ToLower(prop), i), Seed: subSeed(seed, prop, tier, fmt.Sprint(i)), Kind: "random", P: pb})
@@ -832,6 +837,111 @@ func rsaRecipientRun(c Case, w *Worker) (res Result) {
 	return
 }
 
+// twoTreesRun (C07): a tape as `stfs operation archive -f docs` followed by `stfs operation archive -f photos` leaves it - two
+// sessions, each a relative top-level tree (directory members without a trailing slash, as filepath.Walk names them), or only file
+// members. The replay into the rebuilt index, and into the index as it was before the second session, converges to the rebuild.
+func twoTreesRun(c Case, w *Worker) (res Result) {
+	cfg := PlainCfg()
+	res.setAdd("configs", cfg.String())
+	res.NonTrivial, res.Key = true, c.ID
+	type member struct {
+		name string
+		dir  bool
+		body string
+	}
+	sessions := [][]member{
+		{{"docs", true, ""}, {"docs/a.txt", false, "alpha\n"}, {"docs/sub", true, ""}, {"docs/sub/b.txt", false, "beta\n"}},
+		{{"photos", true, ""}, {"photos/p.jpg", false, "jpeg\n"}},
+	}
+	if c.Seed%2 == 1 { // file members only
+		sessions = [][]member{{{"top/a.txt", false, "hi\n"}, {"top/sub/f", false, "yo\n"}}, {{"other/g", false, "g\n"}}}
+	}
+	var imgs [][]byte
+	var img []byte
+	for _, ms := range sessions {
+		var buf bytes.Buffer
+		tw := tar.NewWriter(&buf)
+		for _, m := range ms {
+			h := &tar.Header{Typeflag: tar.TypeReg, Name: m.name, Size: int64(len(m.body)), Mode: 0o644, ModTime: time.Unix(1650000000, 0), Format: tar.FormatPAX}
+			if m.dir {
+				h.Typeflag, h.Mode = tar.TypeDir, 0o755
+			}
+			_ = tw.WriteHeader(h)
+			_, _ = tw.Write([]byte(m.body))
+		}
+		_ = tw.Close()
+		img = append(img, buf.Bytes()...)
+		imgs = append(imgs, append([]byte(nil), img...))
+	}
+	rowsOf := func(dir string, tape []byte, steps ...bool) (string, []Row, error) {
+		_ = os.MkdirAll(tapeDir(dir), 0o777)
+		var rig *Rig
+		for i, overwrite := range steps {
+			// every pass is a new process (`stfs recovery index` run again): nothing cached from the previous pass
+			if rig != nil {
+				rig.Close()
+			}
+			var err error
+			if rig, err = NewRig(dir, cfg); err != nil {
+				return "", nil, fmt.Errorf("harness: %w", err)
+			}
+			defer rig.Close()
+			t := tape
+			if i == 0 && len(steps) > 1 && !steps[1] && overwrite && len(steps) == 3 {
+				t = imgs[0] // first step of the "older index" variant: only the first session is on the tape yet
+			}
+			if err := os.WriteFile(rig.Drive, t, 0o666); err != nil {
+				return "", nil, fmt.Errorf("harness: %w", err)
+			}
+			if err := runIndex(rig, overwrite); err != nil {
+				return "", nil, fmt.Errorf("indexing pass %d (overwrite=%v): %w", i+1, overwrite, err)
+			}
+			rig.LocksSettled()
+		}
+		rows, err := DumpRows(rig.DB)
+		if err != nil {
+			return "", nil, fmt.Errorf("harness: %w", err)
+		}
+		var live []Row
+		for _, r := range rows {
+			if r.Deleted != 1 {
+				live = append(live, r)
+			}
+		}
+		return RowsDigest(live), live, nil
+	}
+	want, wantRows, err := rowsOf(w.NewDir("tt0"), img, true)
+	if err != nil {
+		res.Verdict, res.Msg = "inconclusive", "rebuild from scratch: "+err.Error()
+		return
+	}
+	for vi, steps := range [][]bool{{true, false}, {true, false, false}} {
+		what := []string{"a rebuild followed by a replay of the same tape", "an index built when only the first session was on the tape, then two replays of the whole tape"}[vi]
+		got, gotRows, err := rowsOf(w.NewDir(fmt.Sprintf("tt%d", vi+1)), img, steps...)
+		if err != nil {
+			if strings.HasPrefix(err.Error(), "harness:") {
+				res.Verdict, res.Msg = "inconclusive", err.Error()
+				return
+			}
+			res.violate("c07|two-trees|replay-error", fmt.Sprintf("[%s] %s: %v", cfg, what, err))
+			return
+		}
+		if got != want {
+			var names, wnames []string
+			for _, r := range gotRows {
+				names = append(names, r.Name)
+			}
+			for _, r := range wantRows {
+				wnames = append(wnames, r.Name)
+			}
+			res.violate("c07|two-trees|differs", fmt.Sprintf("[%s] %s shows the live rows %q, a rebuild from scratch %q", cfg, what, names, wnames))
+			return
+		}
+		res.count("two_tree_replays_compared", 1)
+	}
+	return
+}
+
 func seqRun(prop, tier string, c Case, w *Worker) (res Result) {
 	if c.Kind == "giant" {
 		var hp handP
@@ -844,6 +954,9 @@ func seqRun(prop, tier string, c Case, w *Worker) (res Result) {
 	}
 	if c.Kind == "witness:rsa-recipient" {
 		return rsaRecipientRun(c, w)
+	}
+	if c.Kind == "two-trees" {
+		return twoTreesRun(c, w)
 	}
 	var p seqP
 	_ = json.Unmarshal(c.P, &p)
@@ -1115,17 +1228,17 @@ func init() {
 	histRule := "one generated call history per case on a fresh instance (name universe with SQL wildcards, dots, spaces, non-ASCII, >100-byte and codec-looking components; reuse of names forced; contents from the size classes around block and record boundaries); the monitor runs after every call; non-trivial = at least 3 successful mutating calls and at least 4 records on the tape; distinct = distinct (configuration, call list)"
 	propMeta["C02"] = PropMeta{Level: "exploration", Rule: histRule + "; C02 monitor: outcome, returned data and full tree (kinds, sizes, contents, permission bits, owners, timestamps) against a POSIX reference model that is itself validated against afero.OsFs; plus the composite call 'latewrite' (a handle is opened and left idle, another handle rewrites the file and closes, the idle handle then writes and closes: shared-file semantics of the reference), one sparse file of more than 2^31 bytes, and in a fifth of the histories every 1st-4th call is made by a NEW instance over the same tape and index (restart)",
 		Assumptions: []string{"reference-ambiguous shapes (rename of a directory onto an empty directory or onto itself, RemoveAll through a file) accept either outcome", "op shapes of the open findings listed in KNOWN_FINDINGS.txt are generated only by their dedicated witness cases", "symlinks and operations on the root itself are outside the generator"}}
-	propMeta["C01"] = PropMeta{Level: "exploration", Rule: histRule + "; C01 monitor: tree+content through (a) a fresh instance over a copy of the index and (b) a fresh instance that rebuilds the index from a copy of the tape alone, both equal to the live instance after every call; histories include symlinks and batched Archive/Update/Delete/Move",
+	propMeta["C01"] = PropMeta{Level: "exploration", Rule: histRule + "; C01 monitor: tree+content through (a) a fresh instance over a copy of the index and (b) a fresh instance that rebuilds the index from a copy of the tape alone, both equal to the live instance after every call; histories include symlinks and batched Archive/Update/Delete/Move; exotic histories also set times with years 2..9999 and in zones whose offset has seconds, entries carry the full time where int64 nanoseconds cannot",
 		Assumptions: []string{"'fresh process' is approximated by a fresh object graph in the same process over copies of the files; File.Name() is not part of the compared tree"}}
-	propMeta["C05"] = PropMeta{Level: "exploration", Rule: histRule + "; C05 monitor: byte-prefix test of the drive file around every call, failing calls append nothing, length multiple of 512, independent archive/tar scan restarting after each trailer, member bytes == file content for uncompressed+unencrypted configurations; at the end of each history GNU tar (`tar -i -tf`) must list the tape without error and find as many members as the scan found records",
+	propMeta["C05"] = PropMeta{Level: "exploration", Rule: histRule + "; C05 monitor: byte-prefix test of the drive file around every call, failing calls append nothing, length multiple of 512, independent archive/tar scan restarting after each trailer, member bytes == file content for uncompressed+unencrypted configurations; at the end of each history GNU tar (`tar -i -tf`) must list the tape without error and find as many members as the scan found records; in two thirds of the histories every fifth call runs while the operating system refuses the drive (its directory is missing, or the path is a directory), overwriting managers included; witness of the open finding rsa-recipient-size-mismatch: 1500 small writes for an OpenPGP recipient with an RSA key",
 		Assumptions: []string{"explicit overwrite/initialise calls are not part of the histories (they are the stated exception)"}}
 	propMeta["C13"] = PropMeta{Level: "exploration", Rule: histRule + "; C13 monitor: live index rows == entries reachable by listing, parent is a live directory, Readdir(-1) == children exactly once, Readdirnames == Readdir names, Readdir(n) for n in {0,1,2,|c|-1,|c|,|c|+1} within bounds and within the children, every listed name stat-able and openable with matching kind and size; up to three directory handles are kept open across calls and have to list what is there now; histories include Operations.Archive / Update / Delete / Move",
 		Assumptions: []string{"symlinks are outside this generator"}}
-	propMeta["C12"] = PropMeta{Level: "exploration", Rule: histRule + " over the alphabet {a, ab, a_, a%, 'a b', a.b, ä, aä, %, _}; C12 monitor: set algebra on the observed tree before/after every Remove/RemoveAll/Rename/Operations.Delete/Move (nothing outside the subtree changed, nothing inside survived, moved subtree identical, into-own-subtree refused), and the same effect after a rebuild from the tape; histories include Operations.Move / Delete (the CLI's entry points), a third of the Operations.Move destinations in exotic histories are unclean (trailing slash, //, /./, /x/../), rename source and destination are spelled independently, a third of the own-subtree destinations go below a component that starts or ends with dots",
+	propMeta["C12"] = PropMeta{Level: "exploration", Rule: histRule + " over the alphabet {a, ab, a_, a%, 'a b', a.b, ä, aä, %, _}; C12 monitor: set algebra on the observed tree before/after every Remove/RemoveAll/Rename/Operations.Delete/Move (nothing outside the subtree changed, nothing inside survived, moved subtree identical, into-own-subtree refused), and the same effect after a rebuild from the tape; histories include Operations.Move / Delete (the CLI's entry points), a third of the Operations.Move destinations in exotic histories are unclean (trailing slash, //, /./, /x/../), rename source and destination are spelled independently, a third of the own-subtree destinations go below a component that starts or ends with dots; the alphabet also has names starting with characters outside the BMP and at its upper end",
 		Assumptions: []string{}}
 	propMeta["C04"] = PropMeta{Level: "exploration", Rule: histRule + " with batched Archive (1..6 members); C04 monitor: every live row's (record, block) is the offset of a record found by an independent tar scan and is the record that last carried the entry's content according to an independent record interpreter, block < record size, last-known >= content position, Fetch at the position == reference content, last-indexed position == final record, recovery.Query positions == scan positions",
 		Assumptions: []string{"expected content comes from the reference model while the history agrees with it, otherwise from the raw member bytes (plain configurations)"}}
-	propMeta["C07"] = PropMeta{Level: "exploration", Rule: histRule + " biased to moves and delete-recreate; C07 monitor (end of history): for j in all/sampled record prefixes: index of the first j records, then replay of the whole tape without wiping: no error, tree == from-scratch rebuild, a further pass changes no row; j=R uses a copy of the live index; every second prefix index is built with another record size (2x, or half + 1) than the replay uses",
+	propMeta["C07"] = PropMeta{Level: "exploration", Rule: histRule + " biased to moves and delete-recreate; C07 monitor (end of history): for j in all/sampled record prefixes: index of the first j records, then replay of the whole tape without wiping: no error, tree == from-scratch rebuild, a further pass changes no row; j=R uses a copy of the live index; every second prefix index is built with another record size (2x, or half + 1) than the replay uses; two fixed tapes with several relative top-level trees resp. file members only, rebuilt and then replayed once and twice by fresh instances",
 		Assumptions: []string{}}
 }
 
